@@ -72,7 +72,11 @@ func runCheck(prop, tier string) int {
 		fmt.Fprintf(os.Stderr, "no check registered for %s\n", prop)
 		return 2
 	}
-	evPath := filepath.Join(engine.VerifDir, "evidence", prop+".json")
+	evDir := filepath.Join(engine.VerifDir, "evidence")
+	if d := os.Getenv("VERIF_EVIDENCE_DIR"); d != "" {
+		evDir = d // dev helper: do not overwrite the real evidence when checking a mutated checkout
+	}
+	evPath := filepath.Join(evDir, prop+".json")
 	_ = os.Remove(evPath)
 	out, err := f(prop, tier)
 	if err != nil {
